@@ -55,6 +55,11 @@ type Param struct {
 	Soft       bool    `json:"soft,omitempty"`
 	NamedSlice bool    `json:"named_slice,omitempty"` // group consumer declared as KS<i>
 	Fields     []Param `json:"fields,omitempty"`
+	// Hidden > 0 (declared catalogue functions only; reflect cannot build such
+	// a type): the object has an unexported field before field Hidden-1 and its
+	// dig.In carries ignore-unexported:"true". A legal encoding of the same
+	// parameters.
+	Hidden int `json:"hidden,omitempty"`
 }
 
 type RKind int
@@ -294,6 +299,9 @@ func (p Param) String() string {
 	var parts []string
 	for _, f := range p.Fields {
 		parts = append(parts, f.String())
+	}
+	if p.Hidden > 0 {
+		return "In(+unexported){" + strings.Join(parts, "; ") + "}"
 	}
 	return "In{" + strings.Join(parts, "; ") + "}"
 }
